@@ -58,9 +58,12 @@ def gen_vars(rng, names=('x', 'y', 'z')):
         elif r < 0.36:
             sch['_divider'] = 'null'
         elif r < 0.44:
-            # a divider whose two shares differ (deterministically): the daughters must not get the same share
-            sch = {'_default': {k: i + 1 for i, k in enumerate(rng.sample(['a', 'b', 'c', 'd'], rng.choice([1, 2, 3])))},
-                   '_updater': 'set', '_divider': 'split_dict'}
+            # a divider whose two shares differ (deterministically): the daughters must not get the same share.  The
+            # variable has a name of its own: a dictionary default declared by two processes for one variable is
+            # merged in place by the store (defaults are not copied), which the model has no sharing for
+            out['sd%06d' % rng.randrange(10 ** 6)] = {
+                '_default': {k: i + 1 for i, k in enumerate(rng.sample(['a', 'b', 'c', 'd'], rng.choice([1, 2, 3])))},
+                '_updater': 'set', '_divider': 'split_dict'}
         out[v] = sch
     return out
 
